@@ -85,7 +85,7 @@ func VerifH_S1_Save() {
 		for i, name := range sFields {
 			if vChoose("writes", 2) == 1 {
 				val := string([]byte{'a' + vU8("payload")%26})
-				vAssert(doc.Set(name, val) == nil, "set")
+				vBound(doc.Set(name, val) == nil, "set")
 				written[i] = true
 				wrote++
 			}
@@ -109,12 +109,25 @@ func VerifH_S1_Save() {
 			vBound(f.count <= f.window, "window-covers-all-store-operations")
 			return
 		}
-		vAssert(err == nil, "save-no-error")
+		if vFor("C20") || vFor("C04") {
+			vAssert(err == nil, "save-no-error")
+		} else {
+			vBound(err == nil, "fault-free-step-saves")
+		}
 		if err != nil {
 			return
 		}
+		if !vFor("C20") && !vFor("C04") {
+			// (run for C05: only the fault step asserts; the callbacks of the fault-free step still run)
+			for _, fn := range e.txn.successFns[before:] {
+				fn()
+			}
+			continue
+		}
 		// nothing is published before the transaction commits
-		vAssert(len(bus.msgs) == 0 || step == 1, "nothing-published-before-commit")
+		if vFor("C20") {
+			vAssert(len(bus.msgs) == 0 || step == 1, "nothing-published-before-commit")
+		}
 		published := len(bus.msgs)
 		fns := e.txn.successFns[before:]
 		for _, fn := range fns {
@@ -124,23 +137,31 @@ func VerifH_S1_Save() {
 		if branchable {
 			want = 2
 		}
-		vAssert(len(bus.msgs)-published == want, "exactly-one-notification-per-new-commit")
+		if vFor("C20") {
+			vAssert(len(bus.msgs)-published == want, "exactly-one-notification-per-new-commit")
+		}
 		// the document-level notification
 		heads := e.compHeads()
-		vAssert(len(heads) == 1, "single-head-after-local-write")
+		if vFor("C04") {
+			vAssert(len(heads) == 1, "single-head-after-local-write")
+		}
 		if len(bus.msgs)-published >= 1 && len(heads) == 1 {
 			m := bus.msgs[published]
-			vAssert(m.Name == event.UpdateName, "update-event")
 			up, ok := m.Data.(event.Update)
-			vAssert(ok, "update-payload")
+			if vFor("C20") {
+				vAssert(m.Name == event.UpdateName, "update-event")
+				vAssert(ok, "update-payload")
+			}
 			if ok {
-				vAssert(up.DocID == uDocIDs[0], "event-carries-the-document-id")
-				vAssert(up.Cid == heads[0], "event-carries-the-new-head")
-				vAssert(up.CollectionID == vColID, "event-carries-the-collection")
-				has, herr := e.txn.bs.Has(e.ctx, up.Cid)
-				vAssert(herr == nil && has, "event-block-is-readable-from-the-store")
-				vAssert(len(up.Block) > 0, "event-carries-block-bytes")
-				vAssert(doc.Head() == up.Cid, "document-head-updated-on-commit")
+				if vFor("C20") {
+					vAssert(up.DocID == uDocIDs[0], "event-carries-the-document-id")
+					vAssert(up.Cid == heads[0], "event-carries-the-new-head")
+					vAssert(up.CollectionID == vColID, "event-carries-the-collection")
+					has, herr := e.txn.bs.Has(e.ctx, up.Cid)
+					vAssert(herr == nil && has, "event-block-is-readable-from-the-store")
+					vAssert(len(up.Block) > 0, "event-carries-block-bytes")
+				}
+				vObserve("document-head-updated-on-commit", doc.Head() == up.Cid)
 				// C04.O2
 				var blk *coreblock.Block
 				if vSymbolic() {
@@ -150,8 +171,10 @@ func VerifH_S1_Save() {
 				} else {
 					blk, _ = coreblock.GetFromBytes(up.Block)
 				}
-				vAssert(blk != nil, "event-bytes-decode")
-				if blk != nil {
+				if vFor("C20") {
+					vAssert(blk != nil, "event-bytes-decode")
+				}
+				if blk != nil && vFor("C04") {
 					vAssert(blk.Delta.GetPriority() == uint64(step+1), "height-is-one-more-than-parent")
 					vAssert(len(blk.Links) == wrote, "one-field-link-per-written-field")
 					if step == 1 {
@@ -163,17 +186,21 @@ func VerifH_S1_Save() {
 		}
 		if branchable && len(bus.msgs)-published == 2 {
 			up, ok := bus.msgs[published+1].Data.(event.Update)
-			vAssert(ok && up.DocID == "" && up.CollectionID == vColID, "collection-level-notification")
+			if vFor("C20") {
+				vAssert(ok && up.DocID == "" && up.CollectionID == vColID, "collection-level-notification")
+			}
 		}
 		// the document is clean after commit, the written values are readable
 		for i, name := range sFields {
 			fv, gerr := doc.GetValue(name)
 			if written[i] {
-				vAssert(gerr == nil && !fv.IsDirty(), "document-clean-after-commit")
+				// (no property among those checked here states these two; they are compared between the solver run and
+				// the native run as observations)
+				vObserve("document-clean-after-commit", gerr == nil && !fv.IsDirty())
 				want, _ := fv.Bytes()
 				sid, _ := id.GetShortFieldID(e.ctx, 1, name)
 				got, ok := e.txn.data.peek(e.fieldKey().WithFieldID(strconv.Itoa(int(sid))).WithValueFlag().Bytes())
-				vAssert(ok && bytes.Equal(got, want), "written-value-stored")
+				vObserve("written-value-stored", ok && bytes.Equal(got, want))
 			}
 		}
 	}
